@@ -75,7 +75,7 @@ def check(run):
     common.ensure_harness()
     quick = run.tier == "quick"
     rnd = random.Random(run.seed + 1600)
-    hs = histories(run.seed + 1601, 140 if quick else 1500, quick)
+    hs = histories(run.seed + 1601, 140 if quick else 5000, quick)
     jobs, exprs = [], []
     for i, h in enumerate(hs):
         perm = list(h["calls"])
